@@ -4,7 +4,7 @@ import copy
 import numpy as np
 from scipy.optimize import Bounds, LinearConstraint, NonlinearConstraint
 
-from .peers import make_objective, make_constraint_fun, make_callback
+from .peers import make_objective, make_constraint_fun, make_callback, make_jacobian
 
 
 def _arr(v):
@@ -43,6 +43,8 @@ def build_nonlinear(ctx, j, spec, shared=False):
     ub = spec["ub"]
     lb = float(lb) if not isinstance(lb, list) else _arr(lb)
     ub = float(ub) if not isinstance(ub, list) else _arr(ub)
+    if spec.get("jac"):
+        return NonlinearConstraint(fun, lb, ub, jac=make_jacobian(ctx, j, spec))
     return NonlinearConstraint(fun, lb, ub)
 
 
@@ -106,6 +108,16 @@ class Call:
             self.options = shared[okey]
         else:
             self.options = copy.deepcopy(stmt.get("options")) if stmt.get("options") is not None else None
+            enc = stmt.get("options_numpy")
+            if enc and self.options:
+                for k in list(self.options):
+                    v = self.options[k]
+                    if isinstance(v, bool):
+                        continue
+                    if isinstance(v, float):
+                        self.options[k] = np.float64(v) if enc == "scalar" else np.array(v, dtype=float)
+                    elif isinstance(v, int):
+                        self.options[k] = np.int64(v) if enc == "scalar" else np.array(v)
             if okey is not None:
                 shared[okey] = self.options
         self.constants = dict(stmt.get("constants") or {})
